@@ -18,7 +18,7 @@ LEAF = 21
 
 
 # ------------------------------------------------------------------ TLC
-def tlc(ctx, module, cfg, env, workers=10, timeout=2400, simulate=None, depth=None, expect_violation=False, quiet=False):
+def tlc(ctx, module, cfg, env, workers=10, timeout=3600, simulate=None, depth=None, expect_violation=False, quiet=False):
     return core.run_tlc(ctx, module, cfg, workers=workers, timeout=timeout, env_extra=env, coverage=False,
                         simulate=simulate, depth=depth, expect_violation=expect_violation, quiet=quiet, xmx="12g")
 
